@@ -7,7 +7,55 @@ import math
 from harness.gen import catalogue
 
 
+def _cells_stay_valid(t, min_ratio=0.35):
+    """steering only: with the edges bent into arcs every cell must keep the orientation and a fair share of the area of its
+    straight polygon (strong bulges turn the small triangles / quadrilaterals of the irregular tissue inside out; such an
+    input is not a tissue)"""
+    for cyc in t["cells"]:
+        n = len(cyc)
+        straight = sum((t["pos"][cyc[i]].conjugate() * t["pos"][cyc[(i + 1) % n]]).imag for i in range(n)) / 2
+        pts = []
+        for i in range(n):
+            a, b = cyc[i], cyc[(i + 1) % n]
+            rec = t["edges"][(min(a, b), max(a, b))]
+            za, zb = t["pos"][min(a, b)], t["pos"][max(a, b)]
+            seg = []
+            for j in range(8):
+                u = j / 8
+                if rec["centre"] is None:
+                    seg.append(za + u * (zb - za))
+                else:
+                    a0 = cmath.phase(za - rec["centre"])
+                    seg.append(rec["centre"] + rec["R"] * cmath.exp(1j * (a0 + u * rec["theta"])))
+            if a > b:
+                seg = [zb] + seg[:0:-1]
+            pts += seg
+        m = len(pts)
+        bent = sum((pts[i].conjugate() * pts[(i + 1) % m]).imag for i in range(m)) / 2
+        if straight == 0 or bent / straight < min_ratio:
+            return False
+    return True
+
+
 def make(base_name, cells=None, sagitta=None, rng=None, tension=None, jitter=0.0):
+    """as _make; a uniform sagitta fraction is halved (at most four times) until every cell stays a valid cell"""
+    if sagitta and not callable(sagitta):
+        state = rng.getstate() if rng is not None else None
+        s = float(sagitta)
+        for _ in range(5):
+            if rng is not None:
+                rng.setstate(state)
+            t = _make(base_name, cells, s, rng, tension, jitter)
+            if _cells_stay_valid(t):
+                return t
+            s /= 2
+        if rng is not None:
+            rng.setstate(state)
+        return _make(base_name, cells, None, rng, tension, jitter)
+    return _make(base_name, cells, sagitta, rng, tension, jitter)
+
+
+def _make(base_name, cells=None, sagitta=None, rng=None, tension=None, jitter=0.0):
     """cells: list of base-vertex cycles (default: all cells of the base tissue);
     sagitta: None (straight), a float s (every edge bent with sagitta s*|chord|, alternating side by a
     deterministic rule), or a callable (a, b) -> signed fraction."""
